@@ -226,6 +226,10 @@ def run_all(tier, seed):
                 ("renamed", lambda: K.mix(obj=o, x=0.25, n=3, array=arr), "call 4 0 obj,x,n,array", "err key"),
                 ("wrong-element-type", lambda: K.mix(obj=o, x=0.25, n=3, arr=arr.astype("f4")), None, None),
                 ("wrong-element-type-int", lambda: K.first_Float64(p=np.array([1, 2, 3], dtype="i8")), None, None),
+                # xobject arrays are checked like NumPy arrays: the element type must be the declared one
+                ("wrong-element-type-xobject-f4", lambda: K.first_Float64(p=xo.Float32[:]([1.0, 2.0, 3.0, 4.0])), None, None),
+                ("wrong-element-type-xobject-i8", lambda: K.first_Float64(p=xo.Int64[:]([1, 2, 3])), None, None),
+                ("wrong-element-type-xobject-u1", lambda: K.mix(obj=o, x=0.25, n=3, arr=xo.UInt8[24](list(range(24)))), None, None),
             ):
                 before = (int(o.a), float(o.b))
                 try:
